@@ -197,7 +197,12 @@ fn nontrivial_tree(tree: &Value) -> bool {
 
 impl Env {
     fn ask(&mut self, line: &str) -> Option<String> {
-        self.model.as_mut().map(|m| m.ask(line))
+        let answer = self.model.as_mut().map(|m| m.ask(line))?;
+        // which branch of the model answered (coverage of the model under the correspondence run)
+        let request = line.split(' ').next().unwrap_or("");
+        let head = if answer.starts_with("ok:") { answer.split(':').take(2).collect::<Vec<_>>().join(":") } else { answer.split(' ').next().unwrap_or("").to_string() };
+        self.report.hit(&format!("model:{request}:{head}"));
+        Some(answer)
     }
 
     /// Compare the implementation's verdict on `tree` with the model's.
@@ -448,7 +453,6 @@ impl Env {
         self.report.case(&format!("{kind} {text} {real}"), real.starts_with("done"));
         if let Some(model) = model {
             self.report.model_compared += 1;
-            self.report.hit(&format!("model:exec:{}", model.split(':').take(2).collect::<Vec<_>>().join(":")));
             let agree = if model.starts_with("err:") { real == model } else { real.starts_with("done") || real.starts_with("downstream") };
             if !agree {
                 self.report.disagreement("run-time kind gate (apply_action)", &[op.to_string(), format!("# text: {text}"), format!("# model line: {line}")], &model, &format!("{real} ({outcome:?})"));
@@ -1029,6 +1033,125 @@ fn probe() {
     });
 }
 
+/// Systematic AST shapes, most of which the text grammar cannot produce (the validator has to refuse or
+/// accept them on its own): every `Option` none / some(empty) / some(non-empty), empty lists, repeated
+/// facets, empty / odd handles, every pair of handle-declaring families with one handle, nested
+/// SET / UNSET combinations.
+fn shapes(env: &mut Env) -> Vec<String> {
+    fn product(base: &Value, family: &str, axes: &[(&str, Vec<Value>)], out: &mut Vec<Value>) {
+        let mut idx = vec![0usize; axes.len()];
+        loop {
+            let mut c = base.clone();
+            for (a, (field, variants)) in axes.iter().enumerate() {
+                c[family][*field] = variants[idx[a]].clone();
+            }
+            out.push(c);
+            let mut a = 0;
+            loop {
+                if a == axes.len() {
+                    return;
+                }
+                idx[a] += 1;
+                if idx[a] < axes[a].1.len() {
+                    break;
+                }
+                idx[a] = 0;
+                a += 1;
+            }
+        }
+    }
+    let asg = |k: &str| json!([[k, lit("x")]]);
+    let opt_asg = || vec![Value::Null, json!([]), asg("note")];
+    let facet = |vals: Value| json!({"facet": {"Name": "MnemonicState"}, "values": vals});
+    let facets = || vec![json!([]), json!([facet(json!([]))]), json!([facet(asg("salience")), facet(asg("salience"))])];
+    let edge = |opts: Value| json!({"field": {"Name": "has_step"}, "value": {"Param": "x"}, "options": opts});
+    let opt_edges = || vec![Value::Null, json!([]), json!([edge(Value::Null)]), json!([edge(json!({})), edge(json!({"index": {"Value": {"Number": 0}}}))])];
+    let opt_unset = || vec![Value::Null, json!([]), json!(["old"])];
+    let facet_unsets = || vec![json!([]), json!([{"facet": {"Name": "MnemonicState"}, "fields": []}]), json!([{"facet": {"Param": "f"}, "fields": ["a", "b"]}])];
+    let opt_removals = || vec![Value::Null, json!([]), json!([{"field": {"Name": "has_step"}, "value": {"Param": "x"}}])];
+    let wheres = |t: &str| vec![Value::Null, json!([]), json!([w_kind("Concept", t)]), json!([w_kind("Concept", "other")])];
+    let targets = || vec![eh("t"), ep("t"), eid("el-1")];
+    let scalar = || vec![Value::Null, json!({"Literal": {"Number": 3}}), json!({"Param": "v"})];
+
+    let mut clauses: Vec<Value> = Vec::new();
+    product(&create_concept("h"), "CreateConcept", &[("type", vec![Value::Null, json!({"Name": "T"}), json!({"Param": "ty"})]), ("client_key", scalar()), ("name", vec![Value::Null, json!({"Literal": {"String": "n"}})]),
+        ("set_fields", opt_asg()), ("set_attributes", opt_asg()), ("set_facets", facets()), ("set_structural", opt_edges())], &mut clauses);
+    product(&upsert_concept("h"), "UpsertConcept", &[("match", vec![Value::Null, json!({}), json!({"key": {"Literal": {"String": "k"}}}), json!({"id": {"Param": "i"}, "name": {"Literal": {"String": "n"}}})]),
+        ("set_fields", vec![Value::Null, asg("name")]), ("set_attributes", vec![Value::Null, json!([])]), ("set_facets", facets()), ("unset_attributes", opt_unset()), ("unset_facets", facet_unsets()),
+        ("set_structural", vec![Value::Null, json!([edge(Value::Null)])]), ("unset_structural", opt_removals()), ("expect_version", vec![Value::Null, json!({"Param": "v"})])], &mut clauses);
+    for kind in ["CreateEvidence", "CreateAssertion", "CreateActivity"] {
+        product(&record(kind, "h"), kind, &[("client_key", scalar()), ("set_fields", opt_asg()), ("set_facets", facets()), ("set_structural", opt_edges())], &mut clauses);
+    }
+    product(&ensure_proposition(Some("h"), tparam("s"), json!({"Literal": "likes"}), tparam("o")), "EnsureProposition",
+        &[("handle", vec![Value::Null, json!("h"), json!("")]), ("expect_version", scalar()), ("predicate", vec![json!({"Literal": "likes"}), json!({"Param": "p"}), json!({"Variable": "v"})]),
+          ("subject", vec![tparam("s"), tlit("x"), tvar("free")])], &mut clauses);
+    let seven = |k: &str| -> Value {
+        let e = vec![(k.to_string(), lit("x"))];
+        Value::Array(BLOCKS.iter().map(|b| update_action(*b, &e, None)).collect())
+    };
+    product(&update(eh("t"), vec![], None), "Update", &[("target", targets()), ("where_clauses", wheres("t")), ("expect_version", vec![Value::Null, json!({"Param": "v"})]), ("limit", vec![Value::Null, json!({"Literal": {"Number": 1}})]),
+        ("actions", vec![json!([]), json!([update_action(Block::Attributes, &[("a".to_string(), lit("x"))], None)]), seven("note"),
+            json!([update_action(Block::Fields, &[("name".to_string(), lit("x"))], None), update_action(Block::Fields, &[("name".to_string(), lit("y"))], None)]),
+            json!([update_action(Block::Attributes, &[], None), update_action(Block::UnsetAttributes, &[], None), update_action(Block::SetStructural, &[], None)]),
+            json!([update_action(Block::Facet, &[], None), update_action(Block::UnsetFacet, &[], None), update_action(Block::UnsetStructural, &[], None)])])], &mut clauses);
+    for kind in ["RetractAssertion", "Archive", "Tombstone"] {
+        product(&target_where(kind, eh("t"), None), kind, &[("target", targets()), ("where_clauses", wheres("t")), ("limit", vec![Value::Null, json!({"Param": "n"})]), ("expect_state", vec![Value::Null, json!({"Literal": {"String": "active"}})])], &mut clauses);
+    }
+    for kind in ["SupersedeAssertion", "CorrectEvidence"] {
+        product(&target_by(kind, eh("t"), eh("t")), kind, &[("target", targets()), ("by", vec![eh("t"), eh("h"), ep("b"), eid("el-2")]), ("expect_state", vec![Value::Null, json!({"Param": "s"})])], &mut clauses);
+    }
+    product(&transition(ep("act")), "TransitionActivity", &[("target", targets()), ("to", vec![json!({"Literal": {"String": "completed"}}), json!({"Param": "to"})]), ("set_fields", opt_asg()), ("set_structural", opt_edges()),
+        ("expect_state", vec![Value::Null, json!({"Param": "s"})])], &mut clauses);
+    product(&set_retention(ep("el"), json!([]), None), "SetRetention", &[("target", targets()), ("values", vec![json!([]), asg("retention_class"), json!([["a", lit("x")], ["a", lit("y")]])]), ("where_clauses", wheres("t")),
+        ("limit", vec![Value::Null, json!({"Param": "n"})]), ("expect_version", vec![Value::Null, json!({"Param": "v"})])], &mut clauses);
+    product(&purge(ep("el"), None, "PURGE"), "Purge", &[("target", targets()), ("where_clauses", wheres("t")), ("reference_policy", vec![Value::Null, json!({"Literal": {"String": "restrict"}})]), ("limit", vec![Value::Null, json!({"Param": "n"})]),
+        ("confirm", vec![json!("PURGE"), json!("PURGE\n"), json!("")])], &mut clauses);
+    product(&merge(ep("a"), ep("b"), None), "MergeConcept", &[("source", targets()), ("into", vec![eh("t"), eh("h"), ep("b")]), ("where_clauses", wheres("t")), ("expect_version", vec![Value::Null, json!({"Param": "v"})])], &mut clauses);
+
+    let mut ops = Vec::new();
+    let mut emit = |env: &mut Env, cmd: Value, label: &str| {
+        let o = ops_of(&cmd, &[PLAIN]);
+        env.report.hit(&format!("shape:{label}"));
+        if o.len() == 1 {
+            env.report.hit("shape:no_text_spelling");
+        }
+        ops.extend(o);
+    };
+    for c in clauses {
+        let family = c.as_object().and_then(|m| m.keys().next().cloned()).unwrap_or_default();
+        emit(env, plan(false, vec![c.clone()]), &family);
+    }
+    // handles: empty, synthetic-looking, not an identifier, and one handle declared by two families
+    let declare = |family: &str, h: &str| -> Value {
+        match family {
+            "CreateConcept" => create_concept(h),
+            "UpsertConcept" => upsert_concept(h),
+            "EnsureProposition" => ensure_proposition(Some(h), tparam("s"), json!({"Literal": "likes"}), tparam("o")),
+            k => record(k, h),
+        }
+    };
+    let families = ["CreateConcept", "UpsertConcept", "EnsureProposition", "CreateEvidence", "CreateAssertion", "CreateActivity"];
+    for h in ["", "#assert0", "#assert0#proposition", "a b", "ä", "h"] {
+        for f in families {
+            emit(env, plan(true, vec![declare(f, h), target_where("Archive", eh(h), None)]), "handle-spelling");
+            for g in families {
+                emit(env, plan(true, vec![declare(f, h), declare(g, h)]), "handle-declared-twice");
+                emit(env, plan(true, vec![declare(f, h), target_where("Tombstone", ep("x"), None), declare(g, h)]), "handle-declared-twice");
+            }
+        }
+    }
+    // an anonymous ENSURE PROPOSITION never collides; a handle is visible before its declaration and
+    // never leaks out of another clause's WHERE
+    emit(env, plan(true, vec![ensure_proposition(None, tparam("s"), json!({"Literal": "a"}), tparam("o")), ensure_proposition(None, tparam("s"), json!({"Literal": "a"}), tparam("o"))]), "handle-scope");
+    emit(env, plan(true, vec![target_where("Archive", eh("late"), None), create_concept("late")]), "handle-scope");
+    for later in [target_where("Tombstone", eh("t"), None), purge(eh("t"), None, "PURGE"), target_by("SupersedeAssertion", ep("a"), eh("t")), merge(eh("t"), ep("b"), None),
+        transition(eh("t")), update(ep("x"), vec![update_action(Block::Attributes, &[("a".to_string(), handle("t"))], None)], None)] {
+        emit(env, plan(true, vec![target_where("Archive", eh("t"), Some(json!([w_kind("Concept", "t")]))), later.clone()]), "handle-scope");
+        emit(env, plan(true, vec![later, target_where("Archive", eh("t"), Some(json!([w_kind("Concept", "t")])))]), "handle-scope");
+    }
+    ops
+}
+
 /// UPDATEs whose target kind only the engine can know: every element kind × every action × field
 /// names of every class × the JSON shapes `set_fields` distinguishes, by parameter and by literal id.
 fn runtime_cases() -> Vec<String> {
@@ -1123,6 +1246,11 @@ fn main() {
     for op in &ops {
         env.eval(op);
     }
+    let ops = shapes(&mut env);
+    env.report.hit_n("generated:shape_ops", ops.len() as u64);
+    for op in &ops {
+        env.eval(op);
+    }
     let ops = runtime_cases();
     env.report.hit_n("generated:runtime_ops", ops.len() as u64);
     for op in &ops {
@@ -1135,6 +1263,16 @@ fn main() {
     for i in 0..n {
         let mut rng = Rng::for_case(args.seed, i);
         let mut cmd = random_plan(&mut rng);
+        if thorough && i % 4 == 0 {
+            // deeper plans: two or three plans' clauses in one transaction (up to 18 clauses)
+            for _ in 0..1 + rng.usize(2) {
+                let more = random_plan(&mut rng);
+                let extra = more.pointer("/Kml/clauses").and_then(|c| c.as_array()).cloned().unwrap_or_default();
+                if let Some(cs) = cmd.pointer_mut("/Kml/clauses").and_then(|c| c.as_array_mut()) {
+                    cs.extend(extra);
+                }
+            }
+        }
         fix_filters(&mut cmd, &env.filter_sample);
         let sp = [PLAIN, QUOTED, LOWER][rng.usize(3)];
         env.report.hit("generated:random_plan");
@@ -1148,6 +1286,33 @@ fn main() {
          Random part: multi-clause plans over handle graphs."
             .into(),
     );
+    // model branches the run was expected to reach
+    let mut expected: Vec<String> = vec!["model:plan:ok".into(), "model:export:ok".into(), "model:assert:ok".into(), "model:ensure:ok".into()];
+    for t in ["syntax:empty_plan", "syntax:protected", "syntax:dup_key", "syntax:arity", "syntax:belief", "syntax:pred_path", "syntax:literal_subject", "syntax:upsert_identity", "syntax:empty_unset_structural",
+        "syntax:pred_variable", "syntax:no_actions", "syntax:immutable_field", "syntax:structural_target", "syntax:foreign_path", "syntax:purge_confirm", "duplicate_handle:dup_handle", "reference:unbound"] {
+        expected.push(format!("model:plan:err:{t}"));
+    }
+    for t in ["syntax:empty_export", "syntax:belief", "syntax:pred_path", "syntax:literal_subject"] {
+        expected.push(format!("model:export:err:{t}"));
+    }
+    for t in ["unknown_member", "missing_by", "missing_mode", "bad_key", "bare_id", "pred_variable"] {
+        expected.push(format!("model:assert:none:{t}"));
+    }
+    for t in ["bare_id", "pred_variable", "pred_path"] {
+        expected.push(format!("model:ensure:none:{t}"));
+    }
+    for t in ["ok:core", "ok:attributes", "ok:facets", "ok:structural", "err:EpistemicRevisionRequired", "err:EvidenceCorrectionRequired", "err:InvalidLifecycleTransition", "err:ImmutableField", "err:TypeMismatch"] {
+        expected.push(format!("model:exec:{t}"));
+    }
+    if env.model.is_some() && args.replay.is_none() {
+        let unvisited: Vec<String> = expected.iter().filter(|k| !env.report.histogram.contains_key(*k)).cloned().collect();
+        env.report.measured.insert("model_branches_expected".into(), json!(expected.len()));
+        env.report.measured.insert("model_branches_unvisited".into(), json!(unvisited));
+        let bad = env.report.histogram.iter().filter(|(k, _)| k.starts_with("model:") && (k.ends_with(":bad-op") || k.ends_with(":<driver-eof>"))).map(|(k, v)| format!("{k}={v}")).collect::<Vec<_>>();
+        if !bad.is_empty() {
+            env.report.disagreement("the driver could not read a request line", &bad, "an answer", "bad-op");
+        }
+    }
     for k in ["observed:accepted_key_near_miss_of_engine_owned_name", "observed:accepted_structural_field_named_like_engine_owned", "reason_unrecognised"] {
         let n = env.report.histogram.get(k).copied().unwrap_or(0);
         env.report.measured.insert(k.to_string(), json!(n));
